@@ -6,6 +6,7 @@ import (
 	"go/ast"
 	"go/token"
 
+	"github.com/gopherjs/gopherjs/build/cache"
 	"github.com/gopherjs/gopherjs/compiler/incjs"
 )
 
@@ -36,3 +37,8 @@ func VerifAugment(importPath string, overlayFiles, originalFiles []*ast.File) []
 func VerifParseAndAugment(xctx XContext, pkg *PackageData, isTest bool, fileSet *token.FileSet) ([]*ast.File, []incjs.File, error) {
 	return parseAndAugment(xctx, pkg, isTest, fileSet)
 }
+
+// VerifSetCache installs a build cache into a session (verification hook). The default
+// cache is switched off in NewSession; the code paths that decide when a cached package
+// is accepted (LoadPackages, BuildFiles) can only be exercised with one installed.
+func VerifSetCache(s *Session, c cache.Cache) { s.buildCache = c }
